@@ -222,6 +222,7 @@ pub fn pay_start(ctx: &mut Ctx, w: &World, a: &Agreed, ready: Ready, amount: i64
         _ => { ctx.broken("pay token in the customer state has unknown discrete logs"); return StartOutcome::Broken; }
     };
     let mut rng = ScriptedRng::new(ctx.prng.gen(), book.clone());
+    if !ctx.forced_next.is_empty() { let f = std::mem::take(&mut ctx.forced_next); rng.force_scalars(&f); }
     let _ = verif_hooks::drain_challenges();
     let (started, msg) = match ready.start(&mut rng, amount_of(amount), &a.context(), &w.customer) {
         Ok(x) => x,
